@@ -180,7 +180,11 @@ Definition verify_dual_proof := verify_dual_proof_gen true.
 Record dual_proof_v2 := {
   d2_src : option txhdr; d2_tgt : option txhdr; d2_incl : list bytes; d2_cons : list bytes }.
 
-Definition verify_dual_proof_v2 (p : option dual_proof_v2) (src tgt : N) (salh talh : bytes) : res bool :=
+(* `repaired` = true: the code as it stands (since /repo commit dd8ca50: with sourceTxID ==
+   targetTxID both sides must be the very same state); `repaired` = false: the verifier before that
+   commit, kept for the historical witness in Proofs/Refuted.v *)
+Definition verify_dual_proof_v2_gen (repaired : bool) (p : option dual_proof_v2) (src tgt : N) (salh talh : bytes)
+  : res bool :=
   match p with
   | None => Ok false
   | Some p =>
@@ -194,7 +198,7 @@ Definition verify_dual_proof_v2 (p : option dual_proof_v2) (src tgt : N) (salh t
       if negb (bytes_eqb talh ctalh) then Ok false else
       (* ID-1 in uint64: the source ID is non-zero here, the target ID is >= the source ID *)
       if negb (h_id sh - 1 =? h_bltxid sh) || negb (h_id th - 1 =? h_bltxid th) then Ok false else
-      if src =? tgt then Ok true else
+      if src =? tgt then Ok (if repaired then bytes_eqb salh talh else true) else
       if negb (verify_inclusion H (d2_incl p) src (h_bltxid th) (leaf_for salh) (h_blroot th))
       then Ok false else
       if src =? 1 then
@@ -204,6 +208,9 @@ Definition verify_dual_proof_v2 (p : option dual_proof_v2) (src tgt : N) (salh t
     | _, _ => Ok false
     end
   end.
+
+(* VerifyDualProofV2 as it stands in /repo *)
+Definition verify_dual_proof_v2 := verify_dual_proof_v2_gen true.
 
 (* ---------------- entry digests and entry inclusion ---------------- *)
 (* EntrySpecDigest_v0 / TxEntryDigest_v1_1: sha256(key ‖ hValue); metadata is not hashed *)
